@@ -575,8 +575,13 @@ impl<H: DnsHandle> DnssecDnsHandle<H> {
             }
         }
 
-        // if it was just the root DNSKEYS with no RRSIG, we'll accept the entire set, or none
-        if dnskey_proofs.iter().all(|(proof, ..)| proof.is_secure()) {
+        // if it was just the root DNSKEYS with no RRSIG, we'll accept the entire set, or none.
+        // (Keys that are merely matched by a DS record still need a valid signature over the
+        // RRset: `ds_records` is only empty here when no DS lookup was necessary.)
+        if ds_records.is_empty()
+            && !dnskey_proofs.is_empty()
+            && dnskey_proofs.iter().all(|(proof, ..)| proof.is_secure())
+        {
             let proof = dnskey_proofs.pop().unwrap(/* This can not happen due to above test */);
             return Ok(RrsetProof {
                 proof: proof.0,
